@@ -181,8 +181,10 @@ class Pbox(NominalValueMixin, ABC):
         p_values=None,
     ):
         left, right = left_right_switch(left, right)
-        self.left = np.array(left)
-        self.right = np.array(right)
+        # bounds are real-valued quantiles: integer input (lists of ints, min_max(2, 5)) must not
+        # carry an integer dtype into the arithmetic (int64 overflow in P * 10**18, 1 // x in ufuncs)
+        self.left = np.array(left, dtype=float)
+        self.right = np.array(right, dtype=float)
         self.steps = steps
         self.mean = mean
         self.var = var
